@@ -753,7 +753,45 @@ def check_C13(tier, seed):
                     break
         if ok and len(res.samples) < 3 and p > 3 and b > 0:
             res.samples.append({"input": list(x), "actions": len(acts)})
-    res.evaluations = len(xs)
+    # the step-size kernel the blocks rely on, and real blocks for every step size that differs
+    reqs = []
+    for traj in gen.TRAJ:
+        for n in range(0, _sz(64, 160, 320, tier) + 1):
+            reqs += [(f"nadv {n} {s_} {traj}", ("nadv", n, s_, traj)) for s_ in range(0, min(n, 8) + 2)]
+    res.stats["kernel_values_compared"] = _kernel_compare(res, reqs)
+    extra = []
+    for q, u, v in getattr(res, "kernel_mismatches", []):
+        w = q.split()
+        if w[0] == "nadv" and int(w[1]) >= 2 and int(w[2]) >= 1:
+            L, units = int(w[1]), int(w[2])
+            for st in "RD":
+                extra.append((f"TL {L} {units - 1} {st} {w[3]}", L, 1))
+                extra.append((f"TL {L} {units - 1} {st} {w[3]}", 2 * L, 1))
+    extra = sorted(set(extra), key=lambda x: x[1])[:24]
+    if extra:
+        EE = lean_extra(max(int(x[0].split()[1]) for x in extra))
+        rr = core.real_traces(extra)
+        for x in extra:
+            r = rr[x]
+            if not core.is_complete(r):
+                continue
+            w = x[0].split()
+            p, b = int(w[1]), int(w[2])
+            n = x[1]
+            acts = [ln.split(" | ")[0].split()[1:] for ln in r if ln.startswith("A ")]
+            ef = acts.index(["EF"])
+            steps = {}
+            for a in acts[ef + 1:]:
+                if a[0] == "F":
+                    steps[int(a[1]) // p] = steps.get(int(a[1]) // p, 0) + int(a[2]) - int(a[1])
+            for blk in range((n + p - 1) // p):
+                L = min(p, n - blk * p)
+                opt = L + _E(EE, L, b + 1)
+                if steps.get(blk, 0) != opt:
+                    res.viol(x, f"block {blk} (length {L}) recomputed with {steps.get(blk, 0)} forward steps, "
+                                f"binomial optimum with {b + 1} units is {opt}")
+                    break
+    res.evaluations = len(xs) + len(reqs)
     res.nontrivial = seen
     res.stats["classes"] = _dist(xs)
     res.rule = ("periods x binomial_snapshots x storages x trajectories x n (partial and full last block), several passes, "
@@ -1193,8 +1231,9 @@ def check_C18(tier, seed):
         seen.add(("api", a))
     for (a, b), out, le in zip(pairs, eqs, lean_eq):
         want = (le[0] == "1") if not b.startswith("!") else False
-        if out.split() != [str(want), str(not want), str(want)]:
-            res.viol(("pair", a, b), f"a == b, a != b, b == a give {out}; same kind and equal parameters: {want}")
+        if out.split() != [str(want), str(not want), str(want), str(want), str(want)]:
+            res.viol(("pair", a, b), f"a == b, a != b, b == a, and a == b, b == a after iterating a give {out}; "
+                                     f"same kind and equal parameters: {want}")
         seen.add(("eq", a, b))
     res.samples.append({"action": acts[0], "api": api[0], "pair": list(pairs[0]), "eq_ne_eqsym": eqs[0]})
     res.evaluations += len(acts) + len(pairs)
